@@ -733,6 +733,13 @@ Pointset_Powerset<PSET>
 ::simplify_using_context_assign(const Pointset_Powerset& y) {
   Pointset_Powerset& x = *this;
 
+  // The context is read while `x' is being rewritten:
+  // if they are the same object, work on a copy of the context.
+  if (this == &y) {
+    const Pointset_Powerset y_copy(y);
+    return x.simplify_using_context_assign(y_copy);
+  }
+
   // Omega reduction is required.
   // TODO: check whether it would be more efficient to Omega-reduce x
   // during the simplification process: when examining *si, we check
